@@ -964,8 +964,11 @@ def run(ctx):
     warnings.simplefilter('ignore')
     np.seterr(all='ignore')
     run_dispatch(ctx)
-    run_trees(ctx, 150 if ctx.quick else 1500)
+    run_trees(ctx, 150 if ctx.quick else 4000)
     run_zoo(ctx, deep=not ctx.quick)
+    if not ctx.quick:
+        for _ in range(3):   # further input draws for every instance
+            run_zoo(ctx, deep=True)
 
 
 def search(ctx, broken):
